@@ -57,26 +57,31 @@ class C01(Config):
         "SQLite / rusqlite execute the SQL as written; trial decryption finds exactly the generator's owned outputs (C05)",
     ]
     assumptions = [
-        "chains are valid: heights consecutive from the wallet birthday, block hashes and txids unique, every "
-        "nullifier revealed at most once, a note is spent strictly above the block that creates it (consensus: the "
-        "anchor of a spend is the final treestate of an earlier block)",
+        "every best chain is valid: heights consecutive from the wallet birthday, txids unique, every nullifier "
+        "revealed at most once, a note is spent strictly above the block that creates it (consensus: the anchor of a "
+        "spend is the final treestate of an earlier block); over all branches a txid names one transaction and an "
+        "output nullifier one output (valid_universe; checked on every generated history by wf_case)",
         "the height reached by truncate_to_height (chosen from the commitment-tree checkpoints, C06) and the "
         "availability of get_wallet_summary (scan-progress estimate) are taken from the implementation",
         "transaction expiry heights stay unknown (NULL): compact-block scanning never learns them; the model keeps the "
         "column and the full tx_unexpired_condition",
     ]
     partial_clauses = [
-        "spend completeness (no spend of a known note in a scanned block is missed: nullifier map / tracking floor / "
-        "prune argument) is NOT proved; it is evaluated on every implementation dump by prop_case (chk_spent, chk_bal "
-        "against the generator's ground truth) and the model is tied to the code by run_case",
-        "order independence and idempotence follow from spend completeness and are likewise only checked (chk_linear: "
-        "equality with a fresh linear-scan wallet whenever the history ends fully scanned)",
-        "theorems quantify over one fixed chain; histories with forks (rewind + different continuation, re-mined "
-        "transactions) are covered by the correspondence and prop_case only",
-        "the model names a note by its nullifier, the code by (txid, output index): a wallet-owned Sapling output "
-        "re-mined at another tree position (its nullifier changes) is not generated",
-        "commitment-tree failures of scan_cached_blocks (Err ETree) and the height reached by truncate_to_height are "
-        "inputs of the model (C06); transparent coins are not modelled",
+        "theorems are conditional on the model operations succeeding (run / reach only contain steps that returned "
+        "Ok); that the real operations succeed and leave the same tables is checked by run_case, not proved",
+        "balance = ledger and equality of balances hold when no orphaned transaction is alive (un-mined rows expired "
+        "at tip+1; for single-chain histories also: every block scanned); with live orphans only the per-dump "
+        "balance rule (chk_rule) is checked",
+        "the bridge theorem covers the ledger clause of prop_case (chk_ledger) for single-chain histories; the other "
+        "clauses of prop_case (tables against ground truth, balance rule on the dump, linear-scan comparison) and "
+        "histories with forks are not bridged (they are evaluated on every run)",
+        "scan_idempotent is proved for the observable ledger (scanned set, tip, notes and spent status of scanned "
+        "outputs, balances), not for the nullifier map (a re-scan may add entries)",
+        "the model names a note by its nullifier, the code by (txid, output index): valid_universe requires an output "
+        "nullifier to name one output, so a wallet-owned Sapling output re-mined at another tree position (its "
+        "nullifier changes) is outside the theorems and is not generated",
+        "commitment-tree failures of scan_cached_blocks (Err ETree, shardtree defect C06-F2) and the height reached by "
+        "truncate_to_height are inputs of the model (C06); transparent coins are not modelled",
     ]
 
     @staticmethod
